@@ -85,3 +85,71 @@ Section Cone.
     - pose proof (win_outside k delem (nz1 g) c Hde Hk Hc Ho). lia.
   Qed.
 End Cone.
+
+(* ------------------------------------------------------------------ DensityFilter: the defining formula *)
+Section DensFormula.
+  Open Scope R_scope.
+  Let RthR := num_ring_R.
+  Variable g : grid.
+  Hypothesis Hwf : wf g.
+  Variable r : R.
+  Variable delem : Z.
+  Hypothesis Hde : (0 <= delem)%Z.
+  Hypothesis Hr : r < IZR (delem + 1).
+  Hypothesis Hr0 : 0 < r.
+  Variable wtab : Z -> R.
+  Hypothesis Hwt : forall d2, (0 <= d2)%Z -> wtab d2 = Rmax 0 (r - sqrt (IZR d2)).
+
+  Variables i j k : Z.
+  Hypothesis Hi : (0 <= i < nelx g)%Z.
+  Hypothesis Hj : (0 <= j < nely g)%Z.
+  Hypothesis Hk : (0 <= k < nz1 g)%Z.
+  Let el := elemnumber g i j k.
+
+  (* a sum over the stored row of H equals the sum over ALL elements of the domain *)
+  Lemma h_row_sum (Phi : Z -> R -> R) : (forall col, Phi col 0 = 0) ->
+    nsum (map (fun cv => Phi (fst cv) (snd cv)) (h_row g delem wtab el)) =
+    zsum3 (nelx g) (nely g) (nz1 g) (fun a b c => Phi (elemnumber g a b c) (cone_H wtab i j k a b c)).
+  Proof.
+    intros Hphi.
+    pose proof (win_bounds i delem (nelx g) Hde Hi) as (X1 & X2 & X3 & X4).
+    pose proof (win_bounds j delem (nely g) Hde Hj) as (Y1 & Y2 & Y3 & Y4).
+    pose proof (win_bounds k delem (nz1 g) Hde Hk) as (Z1 & Z2 & Z3 & Z4).
+    set (F := fun a b c => Phi (elemnumber g a b c) (cone_H wtab i j k a b c)).
+    assert (Fz : forall a b c, (0 <= a < nelx g)%Z -> (0 <= b < nely g)%Z -> (0 <= c < nz1 g)%Z ->
+              ((a < win_lo i delem \/ win_hi i delem (nelx g) < a) \/
+               (b < win_lo j delem \/ win_hi j delem (nely g) < b) \/
+               (c < win_lo k delem \/ win_hi k delem (nz1 g) < c))%Z -> F a b c = 0).
+    { intros a b c Ha Hb Hc Ho. unfold F.
+      rewrite (window_complete r delem Hde Hr wtab Hwt g i j k a b c) by assumption. apply Hphi. }
+    unfold h_row, el.
+    rewrite (elem_i_num g i j k Hi), (elem_j_num g i j k Hi Hj), (elem_k_num g Hwf i j k Hi Hj).
+    rewrite (nsum_flat_map RthR).
+    rewrite (map_ext _ (fun a => nsum (map (fun b => nsum (map (fun c => F a b c)
+                (zrange2 (win_lo k delem) (win_hi k delem (nz1 g)))))
+                (zrange2 (win_lo j delem) (win_hi j delem (nely g)))))).
+    2:{ intros a. rewrite (nsum_flat_map RthR). f_equal. apply map_ext. intros b.
+        rewrite map_map. reflexivity. }
+    match goal with |- nsum (map ?fx _) = _ => set (FX := fx) end.
+    rewrite (nsum_zrange2 (win_lo i delem) (win_hi i delem (nelx g)) FX).
+    rewrite (zsum_window RthR (nelx g) (win_lo i delem) (win_hi i delem (nelx g)) FX); unfold FX.
+    - unfold zsum3. apply zsum_ext. intros a Ha.
+      rewrite nsum_zrange2.
+      rewrite (zsum_window RthR (nely g) (win_lo j delem) (win_hi j delem (nely g))
+                 (fun b => nsum (map (fun c => F a b c) (zrange2 (win_lo k delem) (win_hi k delem (nz1 g)))))); try lia.
+      + apply zsum_ext. intros b Hb. rewrite nsum_zrange2.
+        apply (zsum_window RthR (nz1 g) (win_lo k delem) (win_hi k delem (nz1 g)) (fun c => F a b c)); try lia.
+        intros c Hc Ho. apply Fz; auto.
+      + intros b Hb Ho. rewrite nsum_zrange2.
+        rewrite (zsum_ext _ _ (fun _ => 0)); [apply (zsum_zero RthR)|].
+        intros t Ht. apply Fz; auto; lia.
+    - lia.
+    - lia.
+    - lia.
+    - intros a Ha Ho. rewrite nsum_zrange2.
+      rewrite (zsum_ext _ _ (fun _ => 0)); [apply (zsum_zero RthR)|].
+      intros t Ht. rewrite nsum_zrange2.
+      rewrite (zsum_ext _ _ (fun _ => 0)); [apply (zsum_zero RthR)|].
+      intros u Hu. apply Fz; auto; lia.
+  Qed.
+End DensFormula.
